@@ -884,9 +884,10 @@ int __wrap_fcntl(int fd, int cmd, ...) {
 int __wrap_poll(struct pollfd* pfds, nfds_t n, int timeout) {
   bool any_virtual = false;
   for (nfds_t i = 0; i < n; i++) any_virtual |= is_virtual(pfds[i].fd);
-  if (!any_virtual) return __real_poll(pfds, n, timeout);
+  if (!any_virtual && !(n == 0 && g_world.own_empty_polls)) return __real_poll(pfds, n, timeout);
   World& w = g_world;
   w.calls.polls++;
+  w.calls.last_poll_timeout = timeout;
   if (!tick()) {
     errno = EIO;
     return -1;
